@@ -119,7 +119,7 @@ Definition sigs_of (vis : list method) (n : bytes) : list msig := flat_map (sig_
 
 Record fixes := mk_fixes {
   fx_nilpkg : bool;    (* copy_fields.go: a named type without package (error) is not in the same package *)
-  fx_iface : bool;     (* copy_fields.go: fields of interface type are assigned *)
+  fx_iface : bool;     (* copy_fields.go: a same-package interface type is no dependency; its fields are assigned *)
   fx_mapptr : bool;    (* copy_fields.go: same-package map types: methods take and return the map itself *)
   fx_deps : bool;      (* deepcopy.go: a same-package dependency is generated even when it carries no tag *)
   fx_origin : bool;    (* deepcopy.go: an instantiated generic type is generated as its origin, once *)
@@ -173,6 +173,9 @@ Definition field_stmt (fx : fixes) (G : pkg) (vis : list method) (f : bytes) (t 
   match t with
   | FNamed n args =>
       let d := lookup G n in
+      (* repaired: `fc.InSamePkg && !isInterface` — for an interface type nothing is reported through
+         OnLocalDep and nothing is forced; a named interface type has no explicit methods (NumMethods() = 0), so
+         the scan leaves HasDeepCopy = HasDeepCopyInto = false and the final else branch assigns *)
       if fx_iface fx && is_iface d then Ok (SAssign f, None)
       else
         (* the methods of the named type: hand-written ones (earlier files) then those of the generated file *)
@@ -181,8 +184,8 @@ Definition field_stmt (fx : fixes) (G : pkg) (vis : list method) (f : bytes) (t 
         let ptr' := if fx_mapptr fx && is_map d then false else ptr in
         Ok (choose f true true ptr', Some (n, args))
   | FError =>
-      if fx_iface fx then Ok (SAssign f, None)
-      else if fx_nilpkg fx then
+      if fx_nilpkg fx then
+        (* not in the same package; the predeclared error type has no explicit methods *)
         let '(hc, hi, ptr) := scan [] in Ok (choose f hc hi ptr, None)
       else Panic                                   (* x.Obj().Pkg().Path() on a nil package *)
   | FForeign ms =>
